@@ -188,13 +188,19 @@ class C05(Prop):
                                      "cands": cands}); k += 1
 
     def check_law(self, law, inp):
+        try:
+            return self._check(law, inp)
+        except G.Domain as e:
+            return True, "outside the law's domain: " + str(e)
+
+    def _check(self, law, inp):
         Specifier, SpecifierSet, InvalidSpecifier, Version, InvalidVersion = G.P()
 
         def mk(clauses, how="str", ov=None):
             if how == "list":
                 return SpecifierSet([Specifier(c) for c in clauses], prereleases=ov)
             if any("," in c for c in clauses):
-                raise ValueError("domain: a clause containing a comma cannot be given inside a string")
+                raise G.Domain("a clause containing a comma cannot be given inside a string")
             return SpecifierSet(",".join(clauses), prereleases=ov)
 
         if law == "conjunction":
@@ -202,7 +208,7 @@ class C05(Prop):
             members = [Specifier(c) for c in cl]
             members2 = [Specifier(c) for c in cl2]
             if set(members) != set(members2):
-                raise ValueError("domain: clause lists differ by more than order/duplication/equal spelling")
+                raise G.Domain("clause lists differ by more than order/duplication/equal spelling")
             s1, s2 = mk(cl, how), mk(cl2, how)
             for c in inp["cands"]:
                 Version(c)
@@ -225,7 +231,7 @@ class C05(Prop):
         if law == "empty_all":
             s = SpecifierSet(inp["s"])
             if len(s) != 0:
-                raise ValueError("domain: not an empty set")
+                raise G.Domain("not an empty set")
             for c in inp["cands"]:
                 if not s.contains(c, prereleases=True) or not SpecifierSet(inp["s"], prereleases=True).contains(c):
                     return False, f"the empty set {inp['s']!r} rejects {c!r} with pre-releases enabled"
